@@ -151,13 +151,13 @@ const tailerPkg = "github.com/google/mtail/internal/tailer"
 func init() {
 	register(&CheckDef{ID: "C18", Level: "model_checking", Only: []string{"C18."},
 		Jobs: func(tier string) []JobDef {
-			steps := 2
+			steps, maxlen := 2, 4
 			if tier == "thorough" {
-				steps = 3
+				steps, maxlen = 2, 5
 			}
 			return []JobDef{{Name: fmt.Sprintf("history-%d", steps), Pkg: tailerPkg, Dir: "internal/tailer",
-				Harness: []string{"tailer/c18.go"}, Entry: "HarnessC18History", Params: p("steps", steps),
-				Bound: fmt.Sprintf("patterns <dir>/*.log and <dir>/a* with ignore expression \\.gz$; a.log present or not before the tailer starts; every history of %d steps over {create one of a.log b.log ab c.txt a.gz d.log, remove one of them, mkdir d.log, rename a.log to b.log, nothing}, each followed by a pattern poll and a stream poll, then one line appended to every existing file", steps)}}
+				Harness: []string{"tailer/c18.go"}, Entry: "HarnessC18History", Params: p("steps", steps, "maxlen", maxlen),
+				Bound: fmt.Sprintf("patterns <dir>/*.log and <dir>/a* with ignore expression \\.gz$; a.log present or not before the tailer starts; every history of %d steps over {create one of a.log b.log ab c.txt a.gz d.log, remove one of them, mkdir d.log, rename a.log to b.log, nothing}, each followed by a pattern poll and a stream poll, then one line appended to every existing file; plus one file whose name is 1..%d arbitrary bytes (no /, NUL or %%; not . or ..) that can be created and removed like the others", steps, maxlen)}}
 		},
 		Assumptions: append([]string{
 			"the file system is the model of C16 (entries directly under one directory); filepath.Glob lists it with the real filepath.Match on the concrete names; url.Parse, filepath.Abs and the ignore expression's matcher are the real functions on concrete strings (natively: a temporary directory and the real functions)",
